@@ -30,6 +30,17 @@ BEADCH = ['Detector Volt.', 'Amp. Type', 'Beads Model', 'Beads Params. Names', '
 SAMPCH = ['Detector Volt.', 'Amp. Type', 'Mean', 'Geom. Mean', 'Median', 'Mode', 'Std', 'CV', 'Geom. Std', 'Geom. CV', 'IQR', 'RCV']
 
 
+def run_program(hist):
+    """RunProgram(hist) of Workbook.tla, read from the module text"""
+    import re
+    txt = open(os.path.join(tlc.SPEC_DIR, 'Workbook.tla')).read()
+    seg = txt[txt.index('RunProgram(hist) =='):txt.index('Before(prog, a, b)')]
+    parts = re.findall(r'<<([^<>]*)>>', seg)
+    seqs = [re.findall(r'"([^"]*)"', p_) for p_ in parts]
+    # <<fixed steps>> \o (IF hist THEN <<histograms>> ELSE <<>>) \o <<about, write>>
+    return seqs[0] + (seqs[1] if hist else []) + seqs[-1]
+
+
 def spec_lists():
     txt = open(os.path.join(tlc.SPEC_DIR, 'Workbook.tla')).read()
     for name, lst in (('RowColumns', ROWCOLS), ('BeadsChannelColumns', BEADCH), ('SamplesChannelColumns', SAMPCH)):
@@ -125,6 +136,19 @@ def run_job(job):
     outp = os.path.join(d, 'custom_out.xlsx') if cfg['explicit_out'] else None
     labels = []
     np.random.seed(11)
+    # TRACE: the steps run() takes, recorded by wrappers around the module-level functions it calls
+    steps = []
+    names = ['read_table', 'process_beads_table', 'add_beads_stats', 'process_samples_table', 'add_samples_stats',
+             'generate_histograms_table', 'generate_about_table', 'write_workbook']
+    saved = {n: getattr(FlowCal.excel_ui, n) for n in names}
+
+    def wrap(n):
+        def f(*a, **kw):
+            steps.append(n + (':' + str(a[1] if len(a) > 1 else kw.get('sheetname')) if n == 'read_table' else ''))
+            return saved[n](*a, **kw)
+        return f
+    for n in names:
+        setattr(FlowCal.excel_ui, n, wrap(n))
     try:
         with warnings.catch_warnings():
             warnings.simplefilter('ignore')
@@ -140,6 +164,11 @@ def run_job(job):
     except Exception as e:  # noqa
         shutil.rmtree(d, ignore_errors=True)
         return [('run-raised/%s' % type(e).__name__, str(e)[:120])]
+    finally:
+        for n in names:
+            setattr(FlowCal.excel_ui, n, saved[n])
+    if steps != run_program(cfg['hist']):
+        labels.append(('run-steps-out-of-documented-order', repr(steps)))
     real_out = outp or os.path.join(d, 'experiment_output.xlsx')
     if not os.path.exists(real_out):
         shutil.rmtree(d, ignore_errors=True)
